@@ -17,6 +17,7 @@ pub struct Proxy {
     pub addr: SocketAddr,
     blocked: Arc<AtomicBool>,
     frozen: Arc<AtomicBool>,
+    throttle: Arc<AtomicU64>,
     links: Arc<Mutex<Vec<JoinHandle<()>>>>,
     pub accepted: Arc<AtomicU64>,
     acceptor: JoinHandle<()>,
@@ -28,18 +29,24 @@ async fn thaw(frozen: &AtomicBool) {
     }
 }
 
-async fn pipe(mut a: TcpStream, mut b: TcpStream, frozen: Arc<AtomicBool>) {
+async fn pipe(mut a: TcpStream, mut b: TcpStream, frozen: Arc<AtomicBool>, throttle: Arc<AtomicU64>) {
     let (mut ar, mut aw) = a.split();
     let (mut br, mut bw) = b.split();
     let f1 = async {
         let mut buf = vec![0u8; 16384];
         loop {
             thaw(&frozen).await;
-            match ar.read(&mut buf).await {
+            // throttle: at most `lim` bytes per 2 ms (a slow link: data arrives piecemeal at the receiver)
+            let lim = throttle.load(Ordering::Relaxed) as usize;
+            let cap = if lim > 0 { lim.min(16384) } else { 16384 };
+            match ar.read(&mut buf[..cap]).await {
                 Ok(0) | Err(_) => break,
                 Ok(n) => {
                     if bw.write_all(&buf[..n]).await.is_err() {
                         break;
+                    }
+                    if lim > 0 {
+                        tokio::time::sleep(std::time::Duration::from_millis(2)).await;
                     }
                 }
             }
@@ -49,11 +56,16 @@ async fn pipe(mut a: TcpStream, mut b: TcpStream, frozen: Arc<AtomicBool>) {
         let mut buf = vec![0u8; 16384];
         loop {
             thaw(&frozen).await;
-            match br.read(&mut buf).await {
+            let lim = throttle.load(Ordering::Relaxed) as usize;
+            let cap = if lim > 0 { lim.min(16384) } else { 16384 };
+            match br.read(&mut buf[..cap]).await {
                 Ok(0) | Err(_) => break,
                 Ok(n) => {
                     if aw.write_all(&buf[..n]).await.is_err() {
                         break;
+                    }
+                    if lim > 0 {
+                        tokio::time::sleep(std::time::Duration::from_millis(2)).await;
                     }
                 }
             }
@@ -70,6 +82,8 @@ impl Proxy {
         let blocked = Arc::new(AtomicBool::new(false));
         let frozen = Arc::new(AtomicBool::new(false));
         let f2 = frozen.clone();
+        let throttle = Arc::new(AtomicU64::new(0));
+        let t2 = throttle.clone();
         let links: Arc<Mutex<Vec<JoinHandle<()>>>> = Arc::new(Mutex::new(Vec::new()));
         let accepted = Arc::new(AtomicU64::new(0));
         let (b2, l2, a2) = (blocked.clone(), links.clone(), accepted.clone());
@@ -87,13 +101,13 @@ impl Proxy {
                 };
                 let _ = out.set_nodelay(true);
                 a2.fetch_add(1, Ordering::SeqCst);
-                let h = tokio::spawn(pipe(sock, out, f2.clone()));
+                let h = tokio::spawn(pipe(sock, out, f2.clone(), t2.clone()));
                 let mut g = l2.lock().unwrap();
                 g.retain(|h| !h.is_finished());
                 g.push(h);
             }
         });
-        Proxy { addr, blocked, frozen, links, accepted, acceptor }
+        Proxy { addr, blocked, frozen, throttle, links, accepted, acceptor }
     }
 
     /// Drop every forwarded connection now.
@@ -113,6 +127,11 @@ impl Proxy {
 
     pub fn block(&self, on: bool) {
         self.blocked.store(on, Ordering::SeqCst);
+    }
+
+    /// forward at most `bytes` per 2 ms in each direction (0 = unlimited)
+    pub fn throttle(&self, bytes: u64) {
+        self.throttle.store(bytes, Ordering::SeqCst);
     }
 }
 
@@ -225,6 +244,15 @@ impl Link {
         match self {
             Link::Tcp(p) => p.block(on),
             Link::Udp(p) => p.block(on),
+        }
+    }
+    pub fn throttle(&self, bytes: u64) -> bool {
+        match self {
+            Link::Tcp(p) => {
+                p.throttle(bytes);
+                true
+            }
+            Link::Udp(_) => false,
         }
     }
     /// only the stream proxy can stall a link without losing bytes
